@@ -85,6 +85,11 @@ def parse(e: ast.AST, env: dict | None = None, subst: dict[str, str] | None = No
         if pos is not None:
             e2 = ast.Compare(left=e.left, ops=[pos()], comparators=e.comparators)
             return f_not(atom(e2, subst))
+    if isinstance(e, ast.Compare) and len(e.ops) > 1 and not any(isinstance(x, ast.Call) for x in ast.walk(e)):
+        # a <= b <= c is (a <= b) and (b <= c) when the operands are plain reads
+        sides = [e.left] + list(e.comparators)
+        return f_and(*[parse(ast.Compare(left=sides[i], ops=[e.ops[i]], comparators=[sides[i + 1]]), env, subst)
+                       for i in range(len(e.ops))])
     return atom(e, subst)
 
 
@@ -197,7 +202,8 @@ class PathCond(Domain):
     """state = (path formula, env of boolean locals as a tuple of pairs, extra facts frozenset).
     Meant to be wrapped in flow.Disjunctive (one state per path)."""
 
-    def __init__(self, subst: dict[str, str] | None = None, gen=None, upd=None, decide=None):
+    def __init__(self, subst: dict[str, str] | None = None, gen=None, upd=None, decide=None, attr_alias: bool = False):
+        self.attr_alias = attr_alias        # a local that names an attribute chain reads as that chain in atoms
         self.subst = subst or {}
         self.gen = gen                      # stmt -> iterable of opaque facts established
         self.upd = upd                      # (stmt, facts) -> facts  (facts that can also be retracted)
@@ -250,7 +256,8 @@ class PathCond(Domain):
             if isinstance(tgt, ast.Name):
                 v = st.value
                 # aliases of / through the reassigned name end here
-                for k in [k for k, a in envd.items() if k.startswith('@') and (k[1:] == tgt.id or a[1] == tgt.id)]:
+                for k in [k for k, a in envd.items() if k.startswith('@') and (
+                        k[1:] == tgt.id or a[1] == tgt.id or a[1].split('.')[0] == tgt.id)]:
                     del envd[k]
                 boolish = isinstance(v, (ast.BoolOp, ast.Compare)) or \
                     (isinstance(v, ast.UnaryOp) and isinstance(v.op, ast.Not)) or \
@@ -269,6 +276,9 @@ class PathCond(Domain):
                     src = al.get(src, src)
                     if src != tgt.id:
                         envd['@' + tgt.id] = ('alias', src)
+                elif self.attr_alias and isinstance(v, ast.Attribute) and _plain_chain(v) and not tgt.id.startswith('_'):
+                    # a local that names an attribute of something: hook = drm.moov
+                    envd['@' + tgt.id] = ('alias', norm(v))
                 elif isinstance(v, ast.Constant) and v.value is None:
                     pc = f_and(pc, ('atom', f'{tgt.id} is None'))
                 facts = frozenset(x for x in facts if x != f'notnone:{tgt.id}')
@@ -319,6 +329,13 @@ class PathCond(Domain):
         if any(x.startswith('notnone:') and x[8:] in stored for x in s[2]):
             return (s[0], s[1], frozenset(x for x in s[2] if not (x.startswith('notnone:') and x[8:] in stored)))
         return s
+
+
+def _plain_chain(e: ast.AST) -> bool:
+    """a.b.c - names and attributes only"""
+    while isinstance(e, ast.Attribute):
+        e = e.value
+    return isinstance(e, ast.Name)
 
 
 def _conjuncts(f) -> list:
